@@ -197,6 +197,10 @@ class GopherEntry:
         for extension, blockname in list(eaexts.items()):
             if blockname in self.ea:
                 continue
+            # Only a regular file can be a sidecar: opening a FIFO that
+            # happens to be called foo.abstract would block for ever.
+            if not vfs.isfile(selector + extension):
+                continue
             try:
                 with vfs.open(
                     selector + extension, "r", errors="surrogateescape"
